@@ -16,10 +16,10 @@ HIST_T = 'exhaustive two-step call histories (all ordered pairs of a corpus) on 
 
 CHECKS = {
     'C01': C('model_checking', 'GSX', GSX_T + '; oracle: print -> re-parse -> compare trees, print again (fix-point), copy()',
-             'Every accepted sentence of the edge cover, production-pair cover and production-triple cover (expression leaves as identifiers and as integers) of the three live grammars; one lexeme respelling at a time (quotes, backslashes, keywords and keyword-like names with $ as identifiers, quoted variables incl. line breaks, numbers); one-token-per-line layout; every keyword as identifier in 8 contexts; USING-list family; every raw-query command x lexeme sequences of length <=2 x 5 layouts + multi-line bodies. ~1.7 M round trips in the quick tier.',
+             'Every accepted sentence of the edge cover, production-pair cover and production-triple cover (expression leaves as identifiers and as integers) of the three live grammars; one lexeme respelling at a time (quotes, backslashes, keywords and keyword-like names with $ as identifiers, quoted variables incl. line breaks, numbers); one-token-per-line layout; every keyword as identifier in 8 contexts; USING-list family; every raw-query command x lexeme sequences of length <=2 x 5 layouts + multi-line bodies. Sibling-pair cover (every two nonterminal positions of a production x every pair of expansions, so both elements of two-element lists range over all alternatives), and every sentence also spelt with all names equal (name coincidences between clauses). ~1.7 M round trips in the quick tier.',
              'to_tree() is taken as tree identity; bounded to one respelling per sentence (thorough: k=2 states, every keyword at the first identifier of every sentence, string leaves). 280 printer defects of the pinned tree are listed as known findings by signature.', 'DESIGN.md 3/C01, 9.6, 9.7'),
     'C02': C('model_checking', 'GSX', GSX_T + '; plus exhaustive short strings / token pairs / size ladder / pumping family',
-             'Every reachable cell of the three action tables (valid and error cells), every production pair and triple, every one-token deviation at every abstract parser state, all strings of length <=3 over a 31-character alphabet, all token pairs, lexeme respellings, USING-list family, keywords respelt with non-ASCII letters that case-fold onto ASCII, a size ladder and a pumping family (19 openers x units of length <=2 over 16 characters x N in {16, 64}, open and closed) are replayed through parse_sql; any outcome other than tree / ParsingException / LexError, or no outcome within 20 s, is a violation. ~3.0 M parses in the quick tier.',
+             'Every reachable cell of the three action tables (valid and error cells), every production pair and triple, every one-token deviation at every abstract parser state, all strings of length <=3 over a 31-character alphabet, all token pairs, lexeme respellings, USING-list family, keywords respelt with non-ASCII letters that case-fold onto ASCII, a size ladder and a pumping family, one code point per Unicode general category (+ unnamed, surrogate and oddly classified characters) in 20 lexical contexts, the sibling-pair cover (19 openers x units of length <=2 over 16 characters x N in {16, 64}, open and closed) are replayed through parse_sql; any outcome other than tree / ParsingException / LexError, or no outcome within 20 s, is a violation. ~3.0 M parses in the quick tier.',
              'Bounded: one (thorough: two) token deviations, strings <=3 chars, nesting <=100, pump length 64 (thorough 256); the per-case 20 s guard stands for termination.', 'DESIGN.md 3/C02, 2/E1'),
     'C03': C('exploration', 'GSX+SQLREF', BEX + ': all operator trees up to a size bound, printed with minimal parentheses; structural oracle + sqlite evaluation over {NULL,0,1,2}',
              'All operator trees with <=2 operator nodes over all listed operators (with every redundant parenthesis pair, and with every blank of the text as line break / tab / two blanks), 3 nodes over precedence-class representatives (thorough: all operators, 4 over representatives), in up to 6 expression contexts per dialect. The parsed expression must equal the generating tree node for node, parentheses flags exact; the generator itself is cross-checked by evaluating minimal vs fully parenthesised text in sqlite.',
@@ -28,40 +28,40 @@ CHECKS = {
              'Decode and encode directions over the same value space (incl. 11 whitespace-like / invisible characters, double-quoted path parts, exponent-range floats, variable names with line breaks); a text is judged only when the live lexer tokenises it as one literal. The denotation is written from the lexical rules the dialect commits to and accepts both readings where SQL dialects disagree.',
              'Trusts the live lexer for "is one literal"; alphabets chosen one per replace()/strip() shortcut in the code.', 'DESIGN.md 3/C04'),
     'C05': C('model_checking', 'GSX', GSX_T + '; membership oracle = recovery-free PDA over live tables + Earley recogniser over live productions',
-             'For every abstract parser state and every terminal (insert / replace / delete / truncate; each also with one token per line), every statement concatenation in 9 layouts and with a line break at every position, and every valid edge/production-pair sentence, parse_sql is run and every accepted text must be a sentence of the grammar according to two independent recognisers. Covers every reachable error cell of the action tables, which is where recovery could resynchronise.',
+             'For every abstract parser state and every terminal (insert / replace / delete / truncate; each also with one token per line), every statement concatenation in 9 layouts and with a line break at every position, statement x every sequence of <=2 separator atoms (semicolon, blank, line break, line / block comments) x statement or garbage x 12 tails, and every valid edge/production-pair sentence, parse_sql is run and every accepted text must be a sentence of the grammar according to two independent recognisers. Covers every reachable error cell of the action tables, which is where recovery could resynchronise.',
              'Trusts the live lexer for the token stream; bounded to one (thorough: two, and k=2 states) token deviations from witness sentences.', 'DESIGN.md 3/C05, 2/E1'),
     'C06': C('exploration', 'QGEN+SQLREF', BEX + ': feature-model enumeration of statements (<= d non-default features + full products) x all small databases; differential execution in sqlite with an answer-set oracle',
-             'Original text and SQLAlchemy rendering (sqlite, mysql, postgresql targets) are executed on identical databases for every statement and every database within the bound; rows, order where the query fixes it (ties and LIMIT judged by the set of legal answers), explicit aliases and DML/DDL effects (table contents with storage classes) must agree. Join feature includes every three-table chain over (kind, condition?) pairs. Failures are minimised to the smallest failing feature set.',
+             'Original text and SQLAlchemy rendering (sqlite, mysql, postgresql targets) are executed on identical databases for every statement and every database within the bound; rows, order where the query fixes it (ties and LIMIT judged by the set of legal answers), explicit aliases and DML/DDL effects (table contents with storage classes) must agree. Join feature includes every three-table chain over (kind, condition?) pairs. Generated DML: UPDATE set shape x WHERE shape, DELETE x WHERE shape, INSERT column list x value kinds (incl. strings with backslash / quote / percent / colon) x row count, INSERT ... SELECT x the SELECT model; effects compared inside rolled-back transactions on every database. Failures are minimised to the smallest failing feature set.',
              'sqlite 3.40 as reference engine; dialect-divergent operators excluded; mssql/oracle output is not executable here.', 'DESIGN.md 3/C06'),
     'C07': C('exploration', 'literal scanners', BEX + ': all strings up to length 3 (thorough 4) over a collision alphabet + other constant types x 7 tree positions x 6 renderings; per-target lexical scanner + sqlite / library read-back; all ordered pairs of twin values',
-             'The rendering with value v must have the same token skeleton as the rendering with a benign value and its literal must denote v under the target lexical rules (to_string literals are also read back by the live lexer). All ordered pairs of 18 twin values (0/False/0.0, 1/True/1.0/"1", ...) as two constants of one statement (7 positions) and as two statements on one renderer object must be written exactly as each is written alone by a new renderer.',
+             'The rendering with value v must have the same token skeleton as the rendering with a benign value and its literal must denote v under the target lexical rules (to_string literals are also read back by the live lexer). All ordered pairs of 18 twin values (0/False/0.0, 1/True/1.0/"1", ...) as two constants of one statement (7 positions) and as two statements on one renderer object must be written exactly as each is written alone by a new renderer. Temporal values are a boundary product (date x time of day x every sub-second digit position), numbers a product mantissa x decimal exponent x sign plus machine-word boundaries.',
              'Target lexical rules written from documentation (mysql backslash escapes; standard quoting elsewhere).', 'DESIGN.md 3/C07'),
     'C08': C('exploration', 'QGEN+PLANX+SQLREF', BEX + ': feature-model enumeration of federated queries x catalog shapes x all small databases; plans interpreted by an independent reference interpreter written from the step docstrings, compared with sqlite running the original text',
-             'Each plan is interpreted step by step on every database (NULLs, duplicates, unmatched keys, empty tables) and must return a legal answer of the original query. 32 query shapes (joins, three-table key chains, sub-queries incl. cross-integration joins inside them, set operations, CTEs incl. name collisions, derived tables with LIMIT/OFFSET/DISTINCT) x 9 join kinds x 23 ON shapes x 37 WHERE shapes ...; join kind x every pushdown source is a full product. A fetch that names a table of another integration cannot be carried out. Failures are minimised to the smallest failing feature set.',
+             'Each plan is interpreted step by step on every database (NULLs, duplicates, unmatched keys, empty tables) and must return a legal answer of the original query. 32 query shapes (joins, three-table key chains, sub-queries incl. cross-integration joins inside them, set operations, CTEs incl. name collisions, derived tables with LIMIT/OFFSET/DISTINCT) x 9 join kinds x 23 ON shapes x 37 WHERE shapes ...; join kind x every pushdown source is a full product. A fetch that names a table of another integration cannot be carried out. Also: a CTE over another integration referenced only from a sub-query (6 shapes, incl. one named like a real table), and constant-first comparisons for every binary operator (incl. LIKE / NOT LIKE / IN) on either side. Failures are minimised to the smallest failing feature set.',
              'sqlite as reference engine; step meaning = docstrings as implemented in vf/planx.py; predictor-free queries.', 'DESIGN.md 3/C08, 2/E3'),
     'C09': C('exploration', 'QGEN+GSX+REFLECT', BEX + ': all planner inputs of the query models + every accepted GSX sentence rooted in a plannable statement under naming schemes x catalogs; reflective scan of every Result reference; ' + HIST_T,
              'Numbering, forward-only references (including sub-steps of map-reduce / multi-step containers and Parameter(Result) inside embedded queries), answer-producing last step and the exception contract are checked on every emitted plan, also on the second plan of every two-step history (same process / same planner object) over a planner corpus.',
              'Bounded by the query models and grammar covers; ~125k planner inputs in the quick tier.', 'DESIGN.md 3/C09'),
     'C10': C('exploration', 'REFLECT', BEX + ': full product table/model position x qualifier spelling x catalog encoding; independent resolver + metamorphic comparison across spellings and encodings',
-             'Every table position the property lists (46, incl. sub-queries / CTEs / derived tables with a cross-integration join, qualified columns in DML, CTEs named like a foreign table) and 14 model positions (incl. two versions of one model in one statement) are probed with every qualifier spelling under every catalog encoding; fetch queries and delete filters are scanned reflectively for table mentions and qualifiers.',
+             'Every table position the property lists (46, incl. sub-queries / CTEs / derived tables with a cross-integration join, qualified columns in DML, CTEs named like a foreign table) and 14 model positions (incl. two versions of one model in one statement) are probed with every qualifier spelling under every catalog encoding; star targets qualified with the integration in 7 positions; fetch queries and delete filters are scanned reflectively for table mentions and qualifiers.',
              '46 table positions, 14 model positions, 5 spellings, 5 catalog encodings.', 'DESIGN.md 3/C10'),
     'C11': C('exploration', 'QGEN+PLANX+SQLREF', BEX + ': the C06 SELECT feature model restricted to one integration + alias/qualifier/star/CTE-name collision shapes; structural and executed comparison',
-             'Plan must be a single fetch whose tree equals the original minus the qualifier and which returns the same rows and column names on every database.',
+             'Plan must be a single fetch whose tree equals the original minus the qualifier and which returns the same rows and column names on every database. The integration is also given 10 other names (containing files / views / mindsdb / information_schema, or spelt with capitals in the catalog), and column names that need quoting (dot, blank, keyword, capitals, leading digit, non-ASCII) are placed in 8 positions.',
              'sqlite as reference engine.', 'DESIGN.md 3/C11'),
     'C12': C('model_checking', 'history BFS', 'explicit-state breadth-first search over prepare / feed / info / execute call histories on one planner object + exhaustive enumeration of placeholder subsets of statement templates',
-             'Every subset of <=3 literal slots of 42 templates (every expression position the property lists, incl. select list together with positions inside FROM / CTE bodies / EXISTS / three-way unions) is bound through get_query_params/fill_query_params and through prepare_steps/execute_steps and compared with inline literals on a fresh planner; all call histories of depth 3 (thorough 4) over 6 operations are explored per template and the stated transitions judged.',
+             'Every subset of <=3 literal slots of 42 templates (every expression position the property lists, incl. select list together with positions inside FROM / CTE bodies / EXISTS / three-way unions) is bound through get_query_params/fill_query_params and through prepare_steps/execute_steps and compared with inline literals on a fresh planner; 96 generated SELECT templates carry every subset of the optional clauses (HAVING without GROUP BY ...) over a table / join / derived table; a refused wrong-count execution must leave the prepared statement executable with the plan of the inline statement; all call histories of depth 3 (thorough 4) over 6 operations are explored per template and the stated transitions judged.',
              'Prepare steps are answered with "unknown"; history state abstraction = (operation, outcome).', 'DESIGN.md 3/C12'),
     'C13': C('exploration', 'GSX+REFLECT', BEX + ': every accepted GSX sentence (edge, production-pair and production-triple cover) rooted in a query/DML/CREATE TABLE statement with numbered lexemes; reflective ground truth; one replacing traversal per visited node',
-             'Visit-once, textual order, is_table/is_target flags and exact replacement (every slot through which the object is reachable must receive the returned node; the returned node rotates through identifier, empty tuple, 0, empty string, NULL) are judged against a reflective walk of the object graph for every node kind in every position the grammars can build.',
+             'Visit-once, textual order, is_table/is_target flags and exact replacement (every slot through which the object is reachable must receive the returned node; the returned node rotates through identifier, empty tuple, 0, empty string, NULL) are judged against a reflective walk of the object graph for every node kind in every position the grammars can build. A raw python value handed to the visitor (text inside an INTERVAL, a list) is a violation; sibling-pair cover included.',
              'Required/tolerated node classes as listed in DESIGN.md.', 'DESIGN.md 3/C13'),
     'C14': C('exploration', 'QGEN+REFLECT', BEX + ': feature-model enumeration of table-model joins (shape x WHERE shape x alias x USING x catalog) with a structured ground-truth description per query',
-             'Apply-step count and input, row_dict, pushed filters, USING params and columns_map are compared with the generator description; 24 shapes (incl. ON clauses with extra / OR / NOT / constant-first conditions, tables and sub-selects joined after the model), 28 WHERE shapes, 8 USING forms, 9 catalogs; boolean context x condition owner is a full product.',
+             'Apply-step count and input, row_dict, pushed filters, USING params and columns_map are compared with the generator description; 24 shapes (incl. ON clauses with extra / OR / NOT / constant-first conditions, tables and sub-selects joined after the model), 28 WHERE shapes, 8 USING forms, 9 catalogs; boolean context x condition owner is a full product. Two aliased models (with a table between), per-model partition sizes / options, catalogs whose two models predict different columns; shape x WHERE x catalog is a full product; every statement is also planned after two other statements of the process; semi-join filters (col IN <result>) are judged against the ON equalities of the statement.',
              'Conditions on model columns under OR/NOT/functions are recorded, not judged.', 'DESIGN.md 3/C14'),
     'C15': C('exploration', 'PLANX+SQLREF', BEX + ': full product of time conditions x partition filters x window x group columns x side x LIMIT, interpreted on ALL table contents with <=3 (thorough 4) rows',
-             'The dataframe handed to the time-series model is computed by interpreting the plan and compared with the specification evaluated directly on the table (ties: any maximal choice); 16 unsupported shapes must be rejected.',
+             'The dataframe handed to the time-series model is computed by interpreting the plan and compared with the specification evaluated directly on the table (ties: any maximal choice); 16 unsupported shapes must be rejected. The WHERE conjuncts are also arranged as 9 other AND trees (order, nesting, parentheses; partition filter on two columns); unsupported clauses written inside a data sub-select must be refused or carried out, never dropped.',
              'sqlite runs the per-partition fetches; 286 (thorough 1001) table contents.', 'DESIGN.md 3/C15'),
     'C16': C('exploration', 'GSX lexemes', BEX + ': all balanced lexeme sequences of length <=3 (thorough 4) over a 38-lexeme collision alphabet x 15 embedding commands x 5 layouts, plus every accepted grammar sentence as inner query',
-             'Source slices of the live lexer tokens of inner text and stored text must be equal and both must parse to the same tree.',
+             'Source slices of the live lexer tokens of inner text and stored text must be equal and both must parse to the same tree. Twin lexemes (one name as identifier / @variable / @@variable / each quoted form): all sequences of <=2, and each embedded after each other one was lexed by an earlier statement of the same process.',
              'Equality up to whitespace and comments = equality of token source slices.', 'DESIGN.md 3/C16'),
     'C17': C('exploration', 'GSX+REFLECT', BEX + ': every accepted production-pair sentence of the three grammars (incl. unsupported shapes) x 7 dialect names x 2 methods x fallback on/off, on renderers with a history and on new renderers',
              'Exception contract and non-mutation (reflective fingerprint) on every tree the parsers can produce within the grammar covers; every answer of a renderer that has rendered other statements (both call orders) must equal the answer of a new renderer.',
@@ -73,7 +73,7 @@ CHECKS = {
              'Every rejected one-token deviation at every abstract state (all reachable error cells) plus layout variants of one representative per state, illegal characters at every position and after every token that can span a line break, and errors at the end of pumped lists (3, 40, 2500 elements).',
              'Only token texts are compared between shown and source lines; placeholders are not judged.', 'DESIGN.md 3/C19'),
     'C20': C('model_checking', 'SCHED', 'stateless schedule exploration of real threads under a cooperative scheduler (sys.monitoring scheduling points, iterative preemption bounding, every simple global restored to its import-time value before each schedule) + explicit-state BFS over call histories with global-state fingerprints + ' + HIST_T + ' + finite hash-seed sweep',
-             'All schedules with <=1 preemption for 21 colliding call pairs (bound 2 at coarse granularity for 4 pairs; LINE granularity in named functions), all call histories of depth 3 over 25 operations sharing catalog and renderer objects, all ordered pairs of a planner corpus as process histories and on one reused QueryPlanner, all ordered pairs of 192 renderer operations (renderers made by dialect name / dialect class / shared), seeds 0..3 in fresh interpreters (thorough: bound 2 for all pairs, triples, depth 4, full corpus, 34 seeds). Every observation must equal the fresh reference.',
+             'All schedules with <=1 preemption for 21 colliding call pairs (bound 2 at coarse granularity for 4 pairs; LINE granularity in named functions), all call histories of depth 3 over 25 operations sharing catalog and renderer objects, all ordered pairs of a planner corpus as process histories and on one reused QueryPlanner, an order differential (the one-token deviations of every parser state parsed front-to-back and back-to-front in two fresh processes must be answered alike), read-only calls (str, repr, ==, copy, walk) on the tree before planning / rendering, all ordered pairs of 192 renderer operations (renderers made by dialect name / dialect class / shared), seeds 0..3 in fresh interpreters (thorough: bound 2 for all pairs, triples, depth 4, full corpus, 34 seeds). Every observation must equal the fresh reference.',
              'Scheduling points are function boundaries of repository code; hash seeds are a finite sweep, not exhaustive; free-running pass is sampling.', 'DESIGN.md 3/C20, 2/E5'),
 }
 
